@@ -97,7 +97,12 @@ fn main() {
     let model_path = if model_path == "none" { None } else { Some(model_path.clone()) };
     let mut ctx = Ctx { tier, seed, model, model_path, replay, workdir };
     // panics of the code under test are caught per case; keep their messages out of stdout
-    std::panic::set_hook(Box::new(|info| {
+    let verbose_panics = std::env::var("VERIF_PANIC_VERBOSE").is_ok();
+    std::panic::set_hook(Box::new(move |info| {
+        if verbose_panics {
+            // diagnosis aid: every panic (also those of worker threads of the code under test)
+            eprintln!("[panic] {info}");
+        }
         // remember where the last panic came from (file:line) for `props::guarded`
         if let Some(l) = info.location() {
             if let Ok(mut g) = props::LAST_PANIC_LOC.lock() {
